@@ -21,15 +21,15 @@ class C18(core.Property):
     lean_files = ["HappyModel/C18/*.lean", "HappyProofs/C18/*.lean", "HappyModel/Proto.lean", "Driver/C18.lean"]
     theorems = []  # filled from THEOREMS below
     partial_theorems = {
-        "HappyModel.C18.store_trace_satisfies_spec_steps":
-            "full statement store_trace_satisfies_spec_full (judgeStore of the model's transcript = none) is not proved: "
-            "proved for every well-formed script (WFPeers / WFStep: stores named by the script and the peer lists are < n): the "
-            "judge's step loop judgeStore.go returns no violation on the model's whole transcript — all per-step clauses "
-            "(store/gossip/state-omits-known-key, store/key/missing-after-update, all value clauses), via the invariant "
-            "store_received_only_if_held. Gap: the final clause store/gossip/no-convergence-after-heal-and-rounds on the model's "
-            "transcript (knowledge-level statement: after trailing rounds whose owed flows are full every store's knowledge of "
-            "every key is the union over the stores at phase start) and the plumbing that judgeStore's pre/suffix split of the "
-            "transcript is a split of the script",
+        "HappyModel.C18.store_trace_satisfies_spec_given_union":
+            "full statement store_trace_satisfies_spec_full (judgeStore of the model's transcript = none) is proved for every "
+            "well-formed script UNDER ONE HYPOTHESIS, the knowledge statement UnionAfter for the trailing lossless rounds (when "
+            "their owed flows are full, every store has received, for every key, exactly the union of what the stores had received "
+            "when the rounds began). Proved unconditionally: all per-step clauses on the whole transcript "
+            "(store_trace_satisfies_spec_steps), the pre/suffix plumbing (judgeStore's split of the transcript is a split of the "
+            "script: traceObs_split, go_append), and that the final clause never fires given UnionAfter (judgeFinal_model, via "
+            "judgeValue_congr: the value clause sees only the records and the set of received updates). Gap: UnionAfter itself "
+            "(per-round knowledge flow through the push / answer messages, freshness of message entities) is not proved",
     }
     variants = ["repaired", "current"]   # store family: adoption of a peer's key (fixes/C18-store-adopts-remote-node-id)
     quick_cases = 4500
@@ -82,16 +82,13 @@ class C18(core.Property):
         "clocks_trace_satisfies_spec: the observation of an event is (L, V, H of the model's record, the dict clocks' verdicts against "
         "all events oldest first); the transcript prints the first n components of V (all components when every event's node is < n)",
         "store judge on the model's own transcript (traceObs = the judge-visible projection of Driver.runStore's lines, by "
-        "construction, not proved at string level): PROVED for every script, peer list and CRDT kind — the judge's reconstruction of "
-        "what every store / message has received equals the model's (store_judge_knows_model, all step kinds incl. lossless "
-        "rounds) and every reported value passes the value clause (store_trace_values_accepted). NOT proved (tested on every "
-        "generated case): the clauses store/key/missing-after-update and store/gossip/state-omits-known-key on the model's "
-        "transcript (need: a store < n has received an update of a key only if it holds the key; script stores and peers < n), "
-        "and the final clause store/gossip/no-convergence-after-heal-and-rounds",
-        "the final liveness clause vs store_gossip_phase_converges: 'same reach' is false literally (per key, a store that does not "
-        "hold the key emits no merge for it, while the judge's owed flows are key-independent); the true link is at knowledge level "
-        "(after rounds whose owed flows are full, every store's knowledge of every key = the union over the stores at phase "
-        "start, an unheld key having empty knowledge) — not proved",
+        "construction, not proved at string level): for every well-formed script (WFPeers / WFStep: stores named by the script "
+        "and the peer lists are < n) all per-step clauses are proved accepted (store_trace_satisfies_spec_steps), judgeStore's "
+        "pre/suffix split is proved to be a split of the script, and the final clause "
+        "store/gossip/no-convergence-after-heal-and-rounds is proved never to fire GIVEN the knowledge statement UnionAfter "
+        "(store_trace_satisfies_spec_given_union); UnionAfter itself is the one remaining unproved obligation — the literal "
+        "'same reach' formulation is false per key (a store that does not hold a key emits no merge for it), the knowledge-level "
+        "one is the right statement",
     ]
 
     # ------------------------------------------------------------------ generation
@@ -727,6 +724,9 @@ THEOREMS = [
     "HappyModel.C18.store_received_only_if_held",
     "HappyModel.C18.store_trace_steps_accepted",
     "HappyModel.C18.store_trace_satisfies_spec_steps",
+    "HappyModel.C18.judgeValue_congr",
+    "HappyModel.C18.judgeFinal_model",
+    "HappyModel.C18.store_trace_satisfies_spec_given_union",
 ]
 C18.theorems = THEOREMS
 PROPERTY = C18()
